@@ -270,4 +270,11 @@ def run(ck, tier):
     import_findings(ck, 'C05', 'R6', ('R2', 'R3'), 'a request that is not valid changes the datastore')
     ck.assume('statements of the receive loops other than the framer call and the transport read are treated as non-raising (logging, attribute reads)')
     ck.assume('what a decoded-but-nonsensical PDU does inside decode() is shown to be contained, not absent; resource exhaustion is not decided')
+    from .. import ownership as _own
+    ck.guard(_own.rule_instance_owned, ck, cx, 'R8', _own.DECODERS[:1] + _own.FRAMERS, 'traffic of one connection / server changes how the bytes of another are decoded', 6)
+    from .. import loops as _loops
+    from ..msgtables import registered_classes as _rc
+    ck.guard(_loops.rule_cursor_loops, ck, cx, 'R9', _rc(cx)[0], 'the thread serving the connection (on the asyncio and Twisted servers: the event loop serving every connection) spins for ever on one malformed request', 2)
+    from .c17 import r8_handler_bound_to_its_server
+    ck.guard(r8_handler_bound_to_its_server, ck, cx, 'R10')
     return cx.idx
